@@ -255,12 +255,12 @@ func Run(c *hx.Ctx) {
 	}
 	// larger histories and long values, write set only in Coq (the implementation's hash is still
 	// compared across all variants by the oracle)
-	for i := 0; i < c.N(500, 5000); i++ {
+	for i := 0; i < c.N(300, 4000); i++ {
 		doHistory(c, randHistory(c, 10+c.Intn(70), 2+c.Intn(30), true), caseSet, 3)
 		c.Count("gen:large-set")
 	}
 	// many keys: skip-list towers of several levels
-	for i := 0; i < c.N(8, 60); i++ {
+	for i := 0; i < c.N(6, 60); i++ {
 		doHistory(c, randHistory(c, 300+c.Intn(900), 100+c.Intn(500), false), caseSet, 2)
 		c.Count("gen:many-keys")
 	}
